@@ -503,6 +503,83 @@ def main():
         return 3
 
 
+def frontend_selftest():
+    """The front end on a fixture module with known verdicts: comprehension over a symbolic range (callee precondition
+    checked at a generic in-range index), accumulation loop without an invariant, the same with an off-by-one bound
+    (must be refuted), dict comprehension over a symbolic sequence, augmented assignment to a slice."""
+    import z3
+    from . import engine as E, smt, sym as S, values as V, arrays as A, opaque as O, loops as L
+    from .opaque import veq, Op
+    FX = "pyvc.selftest.fixture"
+    mi = frontend.ModInfo.__new__(frontend.ModInfo)
+    path = os.path.join(VERIF, "pyvc", "selftest", "fixture.py")
+    raw = open(path, "rb").read()
+    import ast
+    import hashlib
+    mi.modname, mi.path, mi.sha256, mi.source = FX, path, hashlib.sha256(raw).hexdigest(), raw.decode()
+    mi.tree, mi.lines = ast.parse(mi.source), mi.source.splitlines()
+    frontend._cache[FX] = mi
+    ctx = harness.Context({"self"})
+    ns = harness.namespace(FX)
+    fns = {q: harness.define(ctx, ns, FX, q) for q in ("series_comprehension", "series_append", "series_off_by_one", "table", "scale_in_place")}
+
+    def thunk(run):
+        run.props = {"self"}
+        n = S.fresh_int("n")
+        run.assume(n >= 0)
+        cfg = Op("input.cfg", {})
+        base = O.opaque_function(FX, "single")
+
+        def single(c, i):
+            run.oblige("index-in-range", (S.num(i) >= 0) & (S.num(i) < n), kind="call-pre")
+            return base(c, i)
+        ns["single"] = single
+        want = V.SList(n, lambda i: base(cfg, i), name="spec")
+        for q in ("series_comprehension", "series_append"):
+            run.scope = q
+            out = harness.call(run, fns[q], cfg, n)
+            run.oblige("is-the-map", veq(out.value, want), kind="post")
+        run.scope = "series_off_by_one"
+        harness.call(run, fns["series_off_by_one"], cfg, n)
+        run.scope = "table"
+        nt = S.fresh_int("nt")
+        run.assume(nt >= 0)
+        I = z3.IntSort()
+        towers = V.SList(nt, lambda k: V.Rec("tower", name=S.SStr(z3.Function("fx_name", I, S.SStr.sort())(S.num(k).z())), index=S.num(k)), name="towers")
+        ns["single"] = base
+        tb = harness.call(run, fns["table"], cfg, towers).value
+        want_tb = V.SDict(nt, lambda k: towers.elem(k).name, lambda k: base(cfg, S.num(k)), name="spec")
+        run.oblige("table-size", veq(tb, want_tb), kind="post")
+        run.scope = "scale_in_place"
+        m = S.fresh_int("m")
+        run.assume(m >= 2)
+        a = A.fresh_array("fx_a", [m], "float")
+        k = S.fresh_real("fx_k")
+        j = S.fresh_int("fx_j")
+        a0 = a._s()
+        r = harness.call(run, fns["scale_in_place"], a, k).value
+        run.oblige("slice-updated", L.scalar_eq(r.at(j), S.ite(j >= 1, a0.at(j) - k, a0.at(j))), kind="post", view="value", assuming=[(j >= 0) & (j < m)])
+        run.oblige("same-object", S.SBool(r is a), kind="post")
+    try:
+        obs = [o for r in E.Explorer(props={"self"}).explore(thunk) for o in r.obligations]
+        res = smt.discharge(obs, timeout_s=10, jobs=2)
+    finally:
+        frontend._cache.pop(FX, None)
+    got = {}
+    for o, r in zip(obs, res):
+        got.setdefault(o.name, set()).add(r["result"])
+    bad = []
+    for name, rs in got.items():
+        want_sat = name.startswith("series_off_by_one") and "index-in-range" in name
+        if (want_sat and "sat" not in rs) or (not want_sat and rs != {"unsat"}):
+            bad.append((name, sorted(rs)))
+    need = ["series_comprehension:post:is-the-map", "series_append:post:is-the-map", "series_off_by_one:call-pre:index-in-range", "table:post:table-size",
+            "scale_in_place:post:slice-updated", "scale_in_place:post:same-object"]
+    missing = [x for x in need if x not in got]
+    print("front-end self-test: %d obligations, %s" % (len(obs), "verdicts as expected" if not bad and not missing else "UNEXPECTED %s missing %s" % (bad, missing)))
+    return 3 if (bad or missing) else 0
+
+
 def selfcheck():
     import z3
     print("z3", z3.get_version_string())
@@ -537,6 +614,9 @@ def selfcheck():
     print("verifier self-test: %d obligations, %s" % (len(obs), "verdicts as expected" if not bad else "UNEXPECTED %s" % bad))
     if bad:
         return 3
+    rc = frontend_selftest()
+    if rc:
+        return rc
     c5 = subprocess.run(["/usr/bin/cvc5", "--version"], capture_output=True, text=True)
     print((c5.stdout or "cvc5 missing").splitlines()[0])
     ln = shutil.which("lean")
